@@ -185,9 +185,15 @@ impl Check for C12 {
             let mut declared_com_alias: Vec<String> = Vec::new();
             let mut canon_acc: Vec<String> = Vec::new();
             let mut canon_com: Vec<String> = Vec::new();
+            let mut declared_acc: Vec<(String, Vec<String>)> = Vec::new();
+            let mut declared_com: Vec<(String, Vec<String>)> = Vec::new();
             for e in &entries[..at] {
+                if let Entry::Commodity { name, aliases, .. } = e {
+                    declared_com.push((name.clone(), aliases.clone()));
+                }
                 match e {
                     Entry::Account { name, aliases, .. } => {
+                        declared_acc.push((name.clone(), aliases.clone()));
                         canon_acc.push(name.clone());
                         declared_acc_alias.extend(aliases.iter().cloned());
                     }
@@ -210,17 +216,34 @@ impl Check for C12 {
                     _ => {}
                 }
             }
+            // the conflicting alias sits under a new name, or under a name declared before (a second
+            // directive for it, repeating its aliases and adding the conflicting one)
+            let again = rng.chance(1, 2);
             let conflict = match rng.below(4) {
-                0 if !canon_acc.is_empty() => Entry::Account {
-                    name: "Assets:Brand:New".to_string(),
-                    aliases: vec![rng.pick(&canon_acc).clone()],
-                    note: None,
-                },
-                1 if !canon_com.is_empty() => Entry::Commodity {
-                    name: "NEWC".to_string(),
-                    aliases: vec![rng.pick(&canon_com).clone()],
-                    format: None,
-                },
+                0 if !canon_acc.is_empty() => {
+                    let target = rng.pick(&canon_acc).clone();
+                    let prior: Vec<&(String, Vec<String>)> = declared_acc.iter().filter(|(n, al)| *n != target && !al.contains(&target)).collect();
+                    if again && !prior.is_empty() {
+                        let (n, al) = (*rng.pick(&prior)).clone();
+                        let mut aliases = al;
+                        aliases.push(target);
+                        Entry::Account { name: n, aliases, note: None }
+                    } else {
+                        Entry::Account { name: "Assets:Brand:New".to_string(), aliases: vec![target], note: None }
+                    }
+                }
+                1 if !canon_com.is_empty() => {
+                    let target = rng.pick(&canon_com).clone();
+                    let prior: Vec<&(String, Vec<String>)> = declared_com.iter().filter(|(n, al)| *n != target && !al.contains(&target)).collect();
+                    if again && !prior.is_empty() {
+                        let (n, al) = (*rng.pick(&prior)).clone();
+                        let mut aliases = al;
+                        aliases.push(target);
+                        Entry::Commodity { name: n, aliases, format: None }
+                    } else {
+                        Entry::Commodity { name: "NEWC".to_string(), aliases: vec![target], format: None }
+                    }
+                }
                 2 if !declared_acc_alias.is_empty() => Entry::Account {
                     name: rng.pick(&declared_acc_alias).clone(),
                     aliases: vec![],
